@@ -593,22 +593,19 @@ func (dsc *dataStoreCommand) bitfieldWrite(keyName string, ops []*bitfieldOp) (o
 			}
 
 			// detect underflow and overflow
-			var outOfBounds bool
-			if op.signed {
-				outOfBounds = isSignedSumOverflow(n, op.value, bits)
-			} else {
-				// unsigned underflows when it goes negative
-				outOfBounds = newValue < 0 || isUnsignedOverflow(newValue, bits)
-			}
-			if outOfBounds {
+			direction := bitfieldOverflowDirection(op.signed, op.op == BF_SET, n, op.value, bits)
+			if direction != 0 {
 				switch op.oflow {
 				case OFLOW_WRAP:
-					newValue &= (1 << bits) - 1
+					// keep the low bits of the two's complement result
+					if bits < 64 {
+						newValue &= (1 << bits) - 1
+					}
 					if op.signed {
 						newValue = signExtend(newValue, bits)
 					}
 				case OFLOW_SAT:
-					newValue = saturateValue(op.signed, newValue, bits)
+					newValue = bitfieldLimit(op.signed, direction > 0, bits)
 				case OFLOW_FAIL:
 					results = append(results, nil)
 					continue
